@@ -2718,7 +2718,8 @@ class Matrix:
                     angle_a = Angle.parse(params[0])
                     try:
                         angle_b = Angle.parse(params[1])
-                    except IndexError:  # this isn't valid.
+                    except IndexError:  # skew(ax) is skew(ax, 0)
+                        self.pre_skew(angle_a, 0)
                         continue
                     try:
                         x_param = Length(params[2]).value()
